@@ -258,7 +258,21 @@ func GenBatch(t Target, prop string, seed uint64, n int, outdir string, nenum in
 			cfg, name = enumShape(i-n), fmt.Sprintf("e%03d", i-n)
 		}
 		cfg.Meta.Pkg = &name
+		danglingFlag := false
+		if prop == "C05" && i < n && len(cfg.Services) > 0 && src.Chance("c05.dangling", 1, 4) {
+			// a reference to an undefined service, tolerated by --ignore-missing-services, must not
+			// change the scope verdict (such a configuration cannot be instantiated: verdict only)
+			undef := choice.Pick(src, "c05.undef", []string{"aaa.undefined", "m.undefined", "zzz.undefined"})
+			k := src.Draw("c05.danglingsvc", len(cfg.Services))
+			if sv := &cfg.Services[k]; !sv.Todo && sv.Ctor != "" {
+				sv.Args = append(sv.Args, gen.Arg{Kind: "svc", S: undef})
+				danglingFlag = true
+			}
+		}
 		w := CfgWorld(src, cfg)
+		if danglingFlag {
+			w.Flags = append(w.Flags, "--ignore-missing-services")
+		}
 		r := Exec(t, w)
 		out.Builds++
 		if v := verdict(prop, w, r); v != nil {
@@ -273,6 +287,9 @@ func GenBatch(t Target, prop string, seed uint64, n int, outdir string, nenum in
 					it.NoRun = true
 				}
 			}
+		}
+		if danglingFlag {
+			it.NoRun = true
 		}
 		out.Items = append(out.Items, it)
 		if r.Exit == 0 && r.Out.Exists && !it.NoRun {
